@@ -25,14 +25,15 @@ type zzBye struct{ From string }
 type zzRespawn struct{ K int }
 
 type zzTree struct {
-	e        *Engine
-	D, F     int
-	stopped  map[string]bool
-	kids     map[string][]*PID // by parent id
-	parentOf map[string]string
-	early    bool // a node handled Stopped before one of its descendants had
-	wrongPar bool
-	listed   map[string][]string // Children() as seen by the last probe, by node id
+	e           *Engine
+	D, F        int
+	stopped     map[string]bool
+	kids        map[string][]*PID // by parent id
+	parentOf    map[string]string
+	early       bool // a node handled Stopped before one of its descendants had
+	earlyListed bool // ... and that descendant was a child the node still listed
+	wrongPar    bool
+	listed      map[string][]string // Children() as seen by the last probe, by node id
 
 	crashStop    string // id of the node whose Stopped handler panics once ("" = none)
 	crashed      bool
@@ -137,6 +138,14 @@ func (n *zzNode) Receive(c *Context) {
 			}
 		}
 		chk(id)
+		for _, k := range c.Children() {
+			// a child this node still lists when it handles its own Stopped: its shutdown did not wait for it
+			// (the recorded finding [child-poisoned-by-third-party-during-shutdown] is different: there the
+			// child has already removed itself from the list)
+			if !t.stopped[k.ID] || t.e.Registry.get(k) != nil {
+				t.earlyListed = true
+			}
+		}
 		t.stopped[id] = true
 		if par := c.Parent(); par != nil && t.bye {
 			c.engine.Send(par, zzBye{From: id})
@@ -333,6 +342,7 @@ func ZZ_C08() {
 		}
 		zzrt.Assert(!respawnEarly, "C10:id-taken-again-while-previous-owner's-descendants-are-alive")
 	}
+	zzrt.Assert(!t.earlyListed, "C08:parent-handled-Stopped-while-a-child-it-still-lists-was-alive")
 	if t.early && third >= 0 {
 		zzrt.Fail("C08:parent-handled-Stopped-before-a-descendant-was-stopped[child-poisoned-by-third-party-during-shutdown]")
 	}
